@@ -7,7 +7,7 @@
    function it reaches (`__str__` of the algorithm / model, `compute_individual_trajectory`, ...):
    * `OReadState name`  a load from the model's State: `state[name]`, `get_tensor_value`, `tracked_variables` (name "*" when it is computed)
    * `OReadModel`       an attribute load / whitelisted pure reader on the model, the algorithm or the dataset (it may read the State)
-   * `OSaveState`       `State.save` (reads of the tracked variables, csv files)
+   * `OSaveState`       `State.save` (the save itself and the reads of the tracked variables it makes; csv files)
    * `OWriteOwn`        an assignment to an attribute of the output manager itself, a local file, a matplotlib call
    * `OCloneAndRead`    `State.clone` followed by anything on the clone (and reads of the model's State)
    The remaining constructors are the effects the property forbids to logging.  The translator refuses them (broken translation);
@@ -53,7 +53,7 @@ Section Obs.
   Definition ev_of_op (op : obs_op) (e : ev V) : bool :=
     match op with
     | OReadState _ | OReadModel => is_cur_get e
-    | OSaveState => match e with ESave Cur => true | _ => false end
+    | OSaveState => match e with ESave Cur => true | _ => is_cur_get e end   (* `State.save` = the reads of the tracked variables *)
     | OWriteOwn => false
     | OCloneAndRead => match e with EClone Cur => true | _ => on_local e || is_cur_get e end
     | OWriteState _ => match e with ESet Cur _ _ | ESetIf Cur _ _ => true | _ => false end
